@@ -105,6 +105,45 @@ func addArithBy(name string, params []string, stmt func(a []*Term) *Term, hints 
 	lemmaLib[name] = lm
 }
 
+// addLean: an inductive lemma; its proof obligation is the Lean theorem of that name in
+// /verif/lean/PowLemmas.lean (checked by `lean` with Mathlib on every run that uses it).
+func addLean(name, theorem string, params []string, stmt func(a []*Term) *Term, doc string) {
+	lm := &Lemma{Name: name, NParams: len(params), Params: params, Stmt: stmt, Doc: doc}
+	lm.Proof = func() *Obligation {
+		a := make([]*Term, len(params))
+		for i, p := range params {
+			a[i] = Var(p, SInt)
+		}
+		return &Obligation{Name: "lemma/" + name, Func: "lemma-library", Kind: "lemma", Goal: stmt(a), Lean: theorem}
+	}
+	lemmaLib[name] = lm
+}
+
+func powT(x, n *Term) *Term { return App("pow", SInt, x, n) }
+
+func init() {
+	zero := ConstI(0)
+	two := ConstI(2)
+	addLean("pow_zero", "pow_zero_lvc", []string{"x"},
+		func(a []*Term) *Term { return Eq(powT(a[0], zero), ConstI(1)) }, "x^0 = 1")
+	addLean("pow_even", "pow_even_step", []string{"x", "i"},
+		func(a []*Term) *Term {
+			return Implies(And(Le(zero, a[1]), Eq(Mod(a[1], two), zero)), Eq(powT(a[0], a[1]), powT(Mul(a[0], a[0]), Div(a[1], two))))
+		}, "i even => x^i = (x*x)^(i/2)")
+	addLean("pow_odd", "pow_odd_step", []string{"x", "i"},
+		func(a []*Term) *Term {
+			return Implies(And(Le(zero, a[1]), Eq(Mod(a[1], two), ConstI(1))), Eq(powT(a[0], a[1]), Mul(a[0], powT(Mul(a[0], a[0]), Div(a[1], two)))))
+		}, "i odd => x^i = x*(x*x)^(i/2)")
+	addLean("pow_cong", "pow_cong", []string{"a", "b", "n", "q"},
+		func(a []*Term) *Term {
+			return Implies(And(Le(zero, a[2]), congT(a[0], a[1], a[3])), congT(powT(a[0], a[2]), powT(a[1], a[2]), a[3]))
+		}, "a ≡ b (mod q) => a^n ≡ b^n (mod q)")
+	addLean("pow_add", "pow_add_lvc", []string{"x", "m", "n"},
+		func(a []*Term) *Term {
+			return Implies(And(Le(zero, a[1]), Le(zero, a[2])), Eq(powT(a[0], Add(a[1], a[2])), Mul(powT(a[0], a[1]), powT(a[0], a[2]))))
+		}, "x^(m+n) = x^m * x^n")
+}
+
 func useLemma(name string, args ...*Term) *Term {
 	usedLemmas[name] = true
 	return lemmaLib[name].Stmt(args)
